@@ -342,6 +342,10 @@ func All() []Family {
 			return obj.Knurl3D(&obj.KnurlParms{Length: 2, Radius: 1, Pitch: 0.4, Height: 0.1, Theta: sdf.DtoR(45)})
 		}),
 		f3("chamferedcylinder", "part", func(e *Env) (sdf.SDF3, error) { return obj.ChamferedCylinder(cyl3(), 0.2, 0.3) }),
+		// ---- unions with many operands and the plain minimum (sizes beyond any fixed-size buffer
+		// an implementation may keep for small unions)
+		f2("union2d-100", "combinator", func(e *Env) (sdf.SDF2, error) { return sdf.Union2D(BaseOps2(100)...), nil }),
+		f3("union3d-100", "combinator", func(e *Env) (sdf.SDF3, error) { return sdf.Union3D(BaseOps3(100)...), nil }),
 	}
 	return fs
 }
